@@ -363,6 +363,20 @@ where
   }
 }
 
+/// RFC 8949 3.3: the two-byte form (0xf8 n) is only well-formed for n >= 32.
+/// A header that is peeked and pushed back no longer reveals its encoded
+/// length to `decode_value`, so the indefinite-length loops check it here.
+fn reject_two_byte_low_simple(
+  header: &Header,
+  encoded_len: usize,
+  start: usize,
+) -> Result<(), DecodeError> {
+  match header {
+    Header::Simple(s) if *s < 32 && encoded_len > 1 => Err(DecodeError::Syntax(start)),
+    _ => Ok(()),
+  }
+}
+
 fn decode_array<R: ciborium_io::Read>(
   decoder: &mut Decoder<R>,
   len: Option<usize>,
@@ -383,10 +397,12 @@ where
       let mut items = Vec::new();
       loop {
         // Peek at the next header to check for break
+        let start = decoder.offset();
         let h = decoder.pull().map_err(Into::into)?;
         if h == Header::Break {
           break;
         }
+        reject_two_byte_low_simple(&h, decoder.offset() - start, start)?;
         decoder.push(h);
         items.push(decode_value(decoder)?);
       }
@@ -416,10 +432,12 @@ where
       // Indefinite-length map
       let mut entries = Vec::new();
       loop {
+        let start = decoder.offset();
         let h = decoder.pull().map_err(Into::into)?;
         if h == Header::Break {
           break;
         }
+        reject_two_byte_low_simple(&h, decoder.offset() - start, start)?;
         decoder.push(h);
         let key = decode_value(decoder)?;
         let val = decode_value(decoder)?;
